@@ -459,6 +459,57 @@ fn c14_lattice_case(ctx: &mut Ctx, case: &OligoCase) {
     ctx.rep.nontrivial += 1;
 }
 
+/// record counts n at which header + n x row lands exactly on a multiple of a page / buffer size (first two
+/// solutions per size), with both neighbours
+pub fn boundary_counts(header: usize, row: usize, nmax: usize) -> Vec<usize> {
+    let mut out: Vec<usize> = Vec::new();
+    for b in [4096usize, 8192, 65_536, 1 << 20] {
+        let mut found = 0;
+        for n in 1..=nmax {
+            if (header + n * row) % b == 0 {
+                out.extend([n - 1, n, n + 1]);
+                found += 1;
+                if found == 2 {
+                    break;
+                }
+            }
+        }
+    }
+    out.sort();
+    out.dedup();
+    out
+}
+
+/// sizes of the header line and of one row of the normalised oligo output
+pub fn oligo_sizes(k: usize, delim: &str, header: bool) -> (usize, usize) {
+    let kcount = model::canon_index(k).len();
+    let row = kcount * 8 + (kcount - 1) * delim.len() + 1;
+    let h = if header { kcount * k + (kcount - 1) * delim.len() + 1 } else { 0 };
+    (h, row)
+}
+
+/// mappings whose size is exactly a whole number of pages (and one row less / more)
+fn c14_page_boundaries(ctx: &mut Ctx) {
+    let mut sh = ctx.shard;
+    let mut n_cases = 0u64;
+    for (k, delim) in [(1usize, ""), (1, " "), (2, " "), (3, " "), (3, ","), (2, "::"), (4, "\t"), (5, " "), (7, " ")] {
+        for header in [false, true] {
+            let (h, row) = oligo_sizes(k, delim, header);
+            for n in boundary_counts(h, row, 33_000) {
+                for threads in [1usize, 3, 16] {
+                    if !sh.mine() {
+                        continue;
+                    }
+                    let case = OligoCase { threads, k, header, delim: delim.to_string(), records: (0..n).map(|i| long_record(3 + i % 5, i as u64)).collect(), memory: if n % 2 == 0 { Some(1000) } else { None } };
+                    c14_lattice_case(ctx, &case);
+                    n_cases += 1;
+                }
+            }
+        }
+    }
+    ctx.rep.count("cases.page_boundaries", n_cases);
+}
+
 pub fn c14(ctx: &mut Ctx) {
     // (1) the write log on every schedule of the C05 exploration
     for (case, bound, label) in oligo_cases(ctx) {
@@ -497,6 +548,7 @@ pub fn c14(ctx: &mut Ctx) {
         }
     }
     ctx.rep.count("cases.lattice", n);
+    c14_page_boundaries(ctx);
     oligo_reuse(ctx, 14);
     if ctx.shard.is_first() {
         ctx.rep.sample("schedule exploration: N=3, 3 records, k=1, header, delimiter \"::\": every write (pos,len,cap) of every schedule logged; writes must tile [0,cap) exactly".to_string());
@@ -1043,6 +1095,9 @@ fn c10_free(ctx: &mut Ctx, case: &MinCase, tag: &str) {
         ctx.rep.evaluations += 1;
         let free = ExecOpts { controlled: false, logging: false, symmetry: true };
         let (_res, verdict) = min_exec(case, mode, &inp, &outp, &[], free);
+        if std::fs::metadata(&outp).map(|m| m.len() > 0 && m.len() % 4096 == 0).unwrap_or(false) {
+            ctx.rep.count("outputs_on_a_4k_multiple", 1);
+        }
         if let Err((key, msg)) = verdict {
             let argv = if case.records.len() <= 8 { case.argv(if mode == "s2m" { "C10s2m-free" } else { "C10m2s-free" }, &[]) } else { vec!["case".into(), "C10big".into(), tag.to_string(), mode.to_string(), case.threads.to_string(), case.w.to_string(), case.m.to_string()] };
             let short: String = msg.chars().take(1500).collect();
@@ -1094,6 +1149,44 @@ pub fn c10_configs(ctx: &mut Ctx) {
             }
         }
     }
+    // listings whose size (s2m: one line per record) is exactly a multiple of 4 KiB / 8 KiB / 64 KiB, one line less, one more
+    {
+        let pool = c10_big_records("ten-thousand");
+        for (mm, w) in [(2usize, 0usize), (2, 3)] {
+            let probe = MinCase { threads: 1, w, m: mm, records: pool.clone() };
+            // a line is id, tab-separated runs, a tab and the line feed; the ids depend on the (truncated) list (rec_id)
+            let rest: Vec<usize> = min_model(&probe).iter().map(|(_, runs)| runs.iter().map(|(t, s, e)| 1 + format!("{}:{}-{}", t, s, e).len()).sum::<usize>() + 2).collect();
+            let mut hits: Vec<usize> = Vec::new();
+            for b in [4096usize, 8192, 65_536] {
+                let (mut bases, mut body, mut ids, mut found) = (0usize, 0usize, [0usize; 3], 0);
+                for n in 1..=pool.len() {
+                    let i = n - 1;
+                    bases += pool[i].len();
+                    body += rest[i];
+                    ids[0] += format!("r{}", i).len();
+                    ids[1] += 4;
+                    ids[2] += 2;
+                    if (body + ids[(n + bases) % 3]) % b == 0 {
+                        hits.extend([n - 1, n, (n + 1).min(pool.len())]);
+                        found += 1;
+                        if found == 2 {
+                            break;
+                        }
+                    }
+                }
+            }
+            hits.sort();
+            hits.dedup();
+            for n in hits {
+                for threads in [1usize, 4] {
+                    if sh.mine() {
+                        c10_free(ctx, &MinCase { threads, w, m: mm, records: pool[..n].to_vec() }, &format!("ten-thousand:{n}"));
+                        ctx.rep.count("cases.size_boundaries", 1);
+                    }
+                }
+            }
+        }
+    }
     // more records than a 16-bit record number can count
     for (mm, w, threads) in [(2usize, 0usize, 3usize), (2, 3, 16)] {
         if sh.mine() {
@@ -1142,7 +1235,15 @@ pub fn replay_min(ctx: &mut Ctx, args: &[String]) {
     let outp = format!("{}/min_out.txt", ctx.scratch);
     ctx.rep.evaluations += 1;
     if args[0] == "C10big" {
-        let case = MinCase { threads: args[3].parse().unwrap(), w: args[4].parse().unwrap(), m: args[5].parse().unwrap(), records: c10_big_records(&args[1]) };
+        let (base, n) = match args[1].split_once(':') {
+            Some((b, n)) => (b, n.parse::<usize>().ok()),
+            None => (args[1].as_str(), None),
+        };
+        let mut records = c10_big_records(base);
+        if let Some(n) = n {
+            records.truncate(n);
+        }
+        let case = MinCase { threads: args[3].parse().unwrap(), w: args[4].parse().unwrap(), m: args[5].parse().unwrap(), records };
         c10_free(ctx, &case, &args[1]);
         return;
     }
@@ -1242,6 +1343,9 @@ fn c05_config(ctx: &mut Ctx, set: &str, records: &[Vec<u8>], k: usize, container
             oc.verif_vectorise_batch()
         }
     });
+    if std::fs::metadata(&outp).map(|m| m.len() > 0 && m.len() % 4096 == 0).unwrap_or(false) {
+        ctx.rep.count("outputs_on_a_4k_multiple", 1);
+    }
     let what = format!("oligo {writer} writer, records '{set}' ({}), k={k}, container {container}, threads={threads}, batch limit={limit}, header={header}, delimiter {:?}", records.len(), delim);
     let size = records.len() + threads;
     match r {
@@ -1325,6 +1429,35 @@ pub fn c05_lattice(ctx: &mut Ctx) {
             for (writer, limit) in [("mmap", 4usize << 30), ("batch", 4 << 30), ("batch", 100_000), ("batch", 7)] {
                 if sh.mine() {
                     c05_config(ctx, "seventy-thousand", &recs, 2, "fasta", threads, limit, writer, false, " ");
+                    n += 1;
+                }
+            }
+        }
+    }
+    // outputs whose size is exactly a multiple of a page or of a write buffer (4 KiB, 8 KiB, 64 KiB), one row less, one more
+    {
+        let recs = c05_record_set("seventy-thousand");
+        for (k, delim) in [(1usize, " "), (2, " "), (3, ","), (3, " "), (5, " "), (7, " ")] {
+            for header in [false, true] {
+                let (h, row) = oligo_sizes(k, delim, header);
+                for nrec in boundary_counts(h, row, 33_000) {
+                    for (writer, threads, limit) in [("mmap", 3usize, 4usize << 30), ("batch", 1, 4 << 30), ("batch", 4, 50_000)] {
+                        if sh.mine() {
+                            c05_config(ctx, "seventy-thousand", &recs[..nrec], k, "fasta", threads, limit, writer, header, delim);
+                            n += 1;
+                        }
+                    }
+                }
+            }
+        }
+    }
+    // record counts at the powers of two (a writer that works in blocks of 2^j records)
+    {
+        let recs = c05_record_set("seventy-thousand");
+        for &nrec in crate::enumr::POW2_COUNTS.iter() {
+            for (writer, threads, limit) in [("mmap", 3usize, 4usize << 30), ("batch", 1, 4 << 30), ("batch", 4, 4 << 30), ("batch", 4, 20_000), ("batch", 2, nrec * 4)] {
+                if sh.mine() {
+                    c05_config(ctx, "seventy-thousand", &recs[..nrec], 2, "fasta", threads, limit, writer, nrec % 2 == 1, " ");
                     n += 1;
                 }
             }
